@@ -373,6 +373,9 @@ impl BoolExt for oxidd::bcdd::BCDDFunction {
 }
 impl BoolExt for oxidd::zbdd::ZBDDFunction {
     impl_export_ext!();
+    fn new_mgr(cap: usize, cache: usize, threads: u32) -> Option<Self::ManagerRef> {
+        Some(oxidd::zbdd::new_manager(cap, cache, threads))
+    }
     fn setop(mref: &Self::ManagerRef, op: &str, a: Option<&Self>, b: Option<&Self>, v: VarNo) -> Option<AllocResult<Self>> {
         Some(match op {
             "SINGLETON" => mref.with_manager_shared(|m| Self::singleton(m, v)),
